@@ -66,7 +66,16 @@ fn parse_free_modules() -> Vec<(String, ModuleSrc)> {
     // line numbers of module statements: set by rendering once
     let _ = render(&ma);
     let _ = render(&mb);
-    vec![("ma".to_string(), ModuleSrc::Ast(ma)), ("mb".to_string(), ModuleSrc::Ast(mb))]
+    // a module whose top-level code fails part-way: its first import ends in that error; whatever a
+    // later import of it answers, the top-level code does not run a second time on this interpreter
+    let mfail = vec![
+        pr("load mfail"),
+        Stmt::var("tag", Some(Expr::str("mfail"))),
+        Stmt::new(StmtKind::Throw(Expr::str("mfail gives up"))),
+        pr("never reached in mfail"),
+    ];
+    let _ = render(&mfail);
+    vec![("ma".to_string(), ModuleSrc::Ast(ma)), ("mb".to_string(), ModuleSrc::Ast(mb)), ("mfail".to_string(), ModuleSrc::Ast(mfail))]
 }
 
 /// Modules the loader does not serve correctly at first: "mc" is missing, "md" does not compile.
@@ -494,6 +503,23 @@ pub fn history(bytes: &[u8]) -> (Vec<Snippet>, Vec<&'static str>) {
                 v.push(Snippet::Code(s, if failed_before { "probe_after_failure" } else { "probe" }));
                 labels.push(if failed_before { "probe_after_failure" } else { "probe" });
             }
+            16 => {
+                // a module whose top-level code throws, imported without and with a guard, possibly in
+                // several snippets
+                let guarded = g.rd.chance(1, 2);
+                let import = Stmt::new(StmtKind::Import("mfail".to_string(), None));
+                let s = if guarded {
+                    vec![
+                        Stmt::new(StmtKind::Try(vec![import, Stmt::print(Expr::str("mfail imported"))], Some(("fe".into(), vec![Stmt::print(Expr::callv("type", vec![Expr::var("fe")]))])), None)),
+                        Stmt::print(Expr::str("after the guarded import of mfail")),
+                    ]
+                } else {
+                    vec![import, Stmt::print(Expr::str("mfail imported"))]
+                };
+                v.push(Snippet::Code(s, "import_failing_module"));
+                labels.push("import_failing_module");
+                failed_before = failed_before || !guarded;
+            }
             14 | 15 => {
                 // a module that is missing (mc) or does not compile (md) when first imported: the
                 // failed import must leave nothing behind, so that the same statement succeeds once
@@ -572,7 +598,7 @@ impl Property for C15 {
     fn assumptions(&self) -> Vec<String> {
         vec![
             "fibers are kept local to a snippet (the state of a fiber after the run in which it died is not defined)".into(),
-            "module bodies of the importable modules do not throw".into(),
+            "the importable modules ma and mb do not throw; mfail always does, and a second import of it is compared with the reference model (the module stays registered as 'being loaded', so the import is refused and its top-level code never runs again)".into(),
         ]
     }
 
@@ -736,7 +762,7 @@ impl Property for C15 {
             ("gen:throw_in_fiber", 300),
             ("gen:throw_in_try_finally", 300),
             ("gen:probe_after_failure", 1_000),
-            ("gen:import", 2_000), ("gen:import_late", 2_000), ("gen:provide_module", 1_000),
+            ("gen:import", 2_000), ("gen:import_late", 2_000), ("gen:import_failing_module", 1_500), ("gen:provide_module", 1_000),
         ]
     }
 }
